@@ -2,6 +2,7 @@ package rules
 
 import (
 	"go/token"
+	"go/types"
 	"strings"
 
 	"golang.org/x/tools/go/ssa"
@@ -314,6 +315,13 @@ func runC20(e *Env) {
 					okIdx = c20IndexUnderNameMatch(e, ia.Index)
 				}
 			}
+			// the node itself remembered by the search (`if node.Step.Name == step { target = node }`):
+			// set only under the name match, nil before
+			if ph, isPhi := ir.Resolve(fa.X).(*ssa.Phi); isPhi {
+				if _, isPtr := ph.Type().(*types.Pointer); isPtr {
+					okIdx = c20IndexUnderNameMatch(e, ph)
+				}
+			}
 			// the action's status: the handler's NodeStatus parameter, or the entry of a
 			// constant table of node statuses (`markedStatus[action]`)
 			isTo := func(v ssa.Value) bool {
@@ -444,7 +452,7 @@ func c20IndexUnderNameMatch(e *Env, idx ssa.Value) bool {
 			}
 			return
 		}
-		if _, isC := ir.ConstInt(v); isC {
+		if _, isC := ir.ConstInt(v); isC || ir.IsNilConst(v) {
 			return // initial value
 		}
 		// the range index (phi rangeindex + 1 / extract key): must be under the name match
